@@ -638,6 +638,7 @@ def run(ctx: Ctx) -> None:
     memo.rule_isinstance_on_class(ctx, [RC, STABF, TR])
     memo.rule_zip_truncation(ctx, [RC, STABF, TR])
     memo.rule_search_fallthrough(ctx, [RC, STABF, TR])
+    memo.rule_zip_pairing(ctx, [RC, STABF, TR])
     effects.rule_consumed_tableau(ctx, [RC, STABF, "graphiq/backends/stabilizer/functions/metric.py"])
     ctx.floor("reverse.table", 18)
     ctx.floor("emit.mirror", 6)
